@@ -45,12 +45,18 @@ def run(ctx):
         raise Infra("close driver failed (a hang of the bubble means a "
                     "goroutine is stuck in real time):\n" + o[-3000:])
     st, runs = lifetrace.validate(ctx, out, "c12")
+    if os.path.exists(os.path.join(out, "c12_abort.ndjson")):
+        st_a, runs_a = lifetrace.validate(ctx, out, "c12", group="abort")
+        for k in ("traces", "rejected", "lines"):
+            st[k] += st_a[k]
+        runs = runs + runs_a
     # data-phase consistency of the same runs (renamed group for the GBN
     # validator: window size 2)
     os.rename(os.path.join(out, "c12_all.ndjson"),
               os.path.join(out, "c12_n2.ndjson"))
     import json
     sm = json.load(open(os.path.join(out, "c12_summary.json")))
+    sm["runs"] = [r for r in sm["runs"] if r["group"] == "all"]
     for r in sm["runs"]:
         r["group"] = "n2"
     json.dump(sm, open(os.path.join(out, "c12_summary.json"), "w"))
